@@ -192,9 +192,17 @@ type rtime struct {
 }
 
 var (
-	rt     *rtime
+	// rt is never nil: outside an execution it is an idle runtime on which
+	// operations complete immediately (cur == nil) and blocking is an error.
+	rt     = idleRuntime()
 	genCtr uint64
 )
+
+func idleRuntime() *rtime {
+	o := &Options{}
+	o.defaults()
+	return &rtime{opts: o, ctl: make(chan struct{}, 1), twins: map[<-chan struct{}]*ctxNode{}}
+}
 
 type abortSentinel struct{}
 
@@ -529,7 +537,7 @@ func Choose(n int) int {
 }
 
 // Active reports whether a model execution is in progress.
-func Active() bool { return rt != nil && !rt.aborting }
+func Active() bool { return rt.cur != nil && !rt.aborting }
 
 // RunResult is the outcome of one execution.
 type RunResult struct {
@@ -593,6 +601,7 @@ func runOnce(opts *Options, prefix []int, mk func() *Exec) *RunResult {
 		}
 		<-t.exited
 	}
+	rt = idleRuntime()
 	res.Points = r.points
 	res.Fail = r.fail
 	res.Detail = r.detail
